@@ -84,7 +84,7 @@ def annotate(events):
             lostdue = referenced and not any(lay["has"])
         elif e["ev"] == "trash":
             ok = 1 <= e["m"] <= lay["n"]
-            e["old"] = e["t"] < lay["cut"]
+            e["old"] = e["t"] <= lay["cut"]
             e["ero"] = ero[e["m"] - 1] if ok else True
             e["lostdue"] = False
         elif e["ev"] == "finish":
@@ -93,35 +93,90 @@ def annotate(events):
     return events
 
 
-def judge_all(ctx, events, by_id):
-    """One TLC run reports every rejected event (BalanceTrace.tla skips the rest of a rejected trace);
-    each is classified by vlib (known finding or VIOLATION)."""
-    import bisect
+def run_judge(ctx, events, cfg):
+    """One TLC run over the trace file; returns the sorted 1-based line numbers of the rejected events
+    (BalanceTrace.tla reports each rejection and skips the rest of that trace)."""
     import re
-    traces = vlib.split_traces(events)
     ctx.nrun += 1
     tp = os.path.join(ctx.scratch, "judge%d.ndjson" % ctx.nrun)
     vlib.write_ndjson(tp, events)
-    r = ctx.tlc(SD, "BalanceTrace", "Judge_Balance.cfg", env={"VERIF_TRACE": tp}, workers=1, timeout=2400,
-                count=False, must_pass=False)
+    r = ctx.tlc(SD, "BalanceTrace", cfg, env={"VERIF_TRACE": tp}, workers=1, timeout=2400, count=False,
+                must_pass=False)
     if not r.ok:
-        raise vlib.InfraError("judge BalanceTrace did not consume the trace file (rc=%d):\n%s" % (r.rc, r.tail(40)))
-    lines = sorted(set(int(x) for x in re.findall(r"REJECTED_LINE\D+(\d+)", r.out)))
+        raise vlib.InfraError("judge BalanceTrace/%s did not consume the trace file (rc=%d):\n%s"
+                              % (cfg, r.rc, r.tail(40)))
+    return sorted(set(int(x) for x in re.findall(r"REJECTED_LINE\D+(\d+)", r.out)))
+
+
+def rejected_traces(traces, lines):
+    """Map rejected line numbers to (trace index, 1-based offset in the trace)."""
+    import bisect
     starts = []
     n = 0
     for t in traces:
         starts.append(n)
         n += len(t)
+    out = []
     for ln in lines:
+        i = bisect.bisect_right(starts, ln - 1) - 1
+        out.append((i, ln - starts[i]))
+    return out
+
+
+def kf4_signature(t):
+    """Structural signature of KF-C05-4 on a rejected trace: an in-class replica is trashed although its
+    server is otherwise in use (another mount of it keeps a replica or receives a pull), while a replica
+    outside that class is kept on another server.  (Annotation only.)"""
+    lay = t[0]["lay"]
+    n = lay["n"]
+    trashed = set(e["m"] for e in t if e["ev"] == "trash" and 1 <= e["m"] <= n
+                  and lay["has"][e["m"] - 1] and lay["mt"][e["m"] - 1] == e["t"])
+    pulled = set(e["to"] for e in t if e["ev"] == "pull")
+    for c, des in lay["desired"].items():
+        if des <= 0:
+            continue
+        for m in trashed:
+            if c not in lay["cls"][m - 1]:
+                continue
+            srv = lay["srv"][m - 1]
+            used = any(m2 != m and lay["srv"][m2 - 1] == srv
+                       and ((lay["has"][m2 - 1] and m2 not in trashed) or m2 in pulled)
+                       for m2 in range(1, n + 1))
+            outside = any(lay["srv"][m3 - 1] != srv and lay["has"][m3 - 1] and m3 not in trashed
+                          and c not in lay["cls"][m3 - 1] for m3 in range(1, n + 1))
+            if used and outside:
+                return True
+    return False
+
+
+def judge_all(ctx, events, by_id):
+    """One TLC run reports every rejected event; each rejection is classified by vlib (known finding or
+    VIOLATION).  Before that the rejected traces are judged again under the two counting variants of the
+    contract, which yields the signature tags the known findings are matched on:
+      permount_ok    the whole trace is accepted when every mount counts as its own device   (KF-C05-1)
+      classblind_ok  the whole trace is accepted when every mount counts for every class     (KF-C05-4)
+      kf4_sig        structural signature of KF-C05-4"""
+    traces = vlib.split_traces(events)
+    rej = rejected_traces(traces, run_judge(ctx, events, "Judge_Balance.cfg"))
+    if rej:
+        sub = [traces[i] for i, off in rej]
+        flat = [e for t in sub for e in t]
+        bad_pm = set(i for i, off in rejected_traces(sub, run_judge(ctx, flat, "Judge_Balance_permount.cfg")))
+        bad_cb = set(i for i, off in rejected_traces(sub, run_judge(ctx, flat, "Judge_Balance_classblind.cfg")))
+    for j, (i, off) in enumerate(rej):
         if len(ctx.violations) >= 25:
             ctx.log("judge: 25 violations, not classifying the remaining rejections")
             break
-        i = bisect.bisect_right(starts, ln - 1) - 1
+        t = traces[i]
+        ev = t[off - 1]
+        ev["permount_ok"] = j not in bad_pm
+        ev["classblind_ok"] = j not in bad_cb
+        ev["kf4_sig"] = kf4_signature(t)
         if os.environ.get("VERIF_DEBUG"):
-            print("REJECTED", ln - starts[i], json.dumps(traces[i]))
-        ctx.classify({"trace": traces[i], "offset": ln - starts[i], "why": "event not allowed by the contract"}, by_id)
-    ctx.traces_validated += len(traces) - len(lines)
-    return len(lines)
+            print("REJECTED", off, json.dumps(t))
+        ctx.classify({"trace": t, "offset": off, "why": "event not allowed by the contract"}, by_id)
+    ctx.traces_validated += len(traces) - len(rej)
+    return len(rej)
 
 
 def run(ctx):
